@@ -214,6 +214,7 @@ impl<'tcx, 'a> Cx<'tcx, 'a> {
         let tcx = self.tcx;
         let mut bodies = Vec::new();
         let mut skipped = 0i128;
+        let mut unsafe_non_src = 0i128;
         for ldid in tcx.hir_body_owners() {
             let kind = tcx.def_kind(ldid);
             if matches!(kind, DefKind::Closure | DefKind::InlineConst | DefKind::AnonConst) {
@@ -222,6 +223,17 @@ impl<'tcx, 'a> Cx<'tcx, 'a> {
             let sp = tcx.def_span(ldid);
             if !self.in_src(sp) {
                 skipped += 1;
+                // generated code (LALRPOP output): only count user-level `unsafe`
+                let body = tcx.hir_body_owned_by(ldid);
+                let mut uc = UnsafeCounter { n: 0 };
+                rustc_hir::intravisit::Visitor::visit_expr(&mut uc, body.value);
+                unsafe_non_src += uc.n;
+                if matches!(kind, DefKind::Fn | DefKind::AssocFn) {
+                    let sig = tcx.fn_sig(ldid.to_def_id()).instantiate_identity().skip_norm_wip();
+                    if matches!(sig.safety(), hir::Safety::Unsafe) {
+                        unsafe_non_src += 1;
+                    }
+                }
                 continue;
             }
             bodies.push(self.body_json(ldid));
@@ -230,6 +242,7 @@ impl<'tcx, 'a> Cx<'tcx, 'a> {
         J::obj()
             .with("bodies", J::Arr(bodies))
             .with("skipped_non_src", J::Int(skipped))
+            .with("unsafe_non_src", J::Int(unsafe_non_src))
             .with("types", J::Arr(types))
     }
 
@@ -958,5 +971,18 @@ impl<'h, 's> rustc_hir::intravisit::Visitor<'h> for ArgFinder<'h, 's> {
         if !hit {
             rustc_hir::intravisit::walk_expr(self, e);
         }
+    }
+}
+
+struct UnsafeCounter {
+    n: i128,
+}
+
+impl<'h> rustc_hir::intravisit::Visitor<'h> for UnsafeCounter {
+    fn visit_block(&mut self, b: &'h hir::Block<'h>) {
+        if let hir::BlockCheckMode::UnsafeBlock(hir::UnsafeSource::UserProvided) = b.rules {
+            self.n += 1;
+        }
+        rustc_hir::intravisit::walk_block(self, b);
     }
 }
